@@ -94,7 +94,7 @@ theorem sendHeaders_ev (s : Streams) (id : Nat) (eos : Bool) (fields : List Hpac
     · next st' u heq =>
       dsimp only
       have e1 : Ev s (s.modStream id fun st => { st with state := st' }) :=
-        modStream_ev _ _ _ (fun _ _ => setState_same _ _ (fun h => absurd h (sendOpen_not_early heq)))
+        modStream_ev' _ _ _ (setState_same _ _ (fun h => absurd h (sendOpen_not_early heq)))
       refine .trans e1 ?_
       generalize (s.modStream id fun st => { st with state := st' }) = s1
       split
@@ -218,11 +218,9 @@ theorem keepHead_ev (s : Streams) (id : Nat) (f : SFrame) (hf : (s.stream id).pe
     rw [modStream_modStream s id fDrop fClr (fun _ => rfl) (fun _ => rfl),
         modStream_modStream s id (fun x => fClr (fDrop x)) (fApp f) (fun _ => rfl) (fun _ => rfl)]
   have hev : Ev s (s.modStream id (fun x => fApp f (fClr (fDrop x)))) := by
-    refine modStream_ev _ _ _ ?_
-    intro st hst
+    refine modStream_ev' _ _ _ ?_
     refine ⟨rfl, rfl, rfl, fun q => by cases q <;> rfl, fun h => h, ?_⟩
     intro g hg _
-    rw [stream_of_get? hst] at hf
     have : g = f := by simpa [fApp, fClr, fDrop] using hg
     rw [this]
     exact List.mem_of_mem_head? hf
@@ -240,7 +238,7 @@ theorem sendSendReset_ev (s : Streams) (id : Nat) (reason : Reason) (init : Init
   dsimp only
   split
   · exact .refl _
-  · have e1 : Ev s (s.modStreamW id fun st => st.setReset reason init) := modStreamW_ev _ _ _ (fun _ _ => setReset_same _ _ _)
+  · have e1 : Ev s (s.modStreamW id fun st => st.setReset reason init) := modStreamW_ev' _ _ _ (setReset_same _ _ _)
     refine .trans e1 ?_
     generalize (s.modStreamW id fun st => st.setReset reason init) = s1
     split
@@ -250,7 +248,7 @@ theorem sendSendReset_ev (s : Streams) (id : Nat) (reason : Reason) (init : Init
       split
       · split
         · next f hf => exact keepHead_ev s1 id f hf
-        · exact .trans (modStream_ev _ _ _ (fun _ _ => setPendingSend_same' _ _ (fun _ h _ => List.mem_of_mem_drop h))) (clearQueue_ev _ _)
+        · exact .trans (modStream_ev' _ _ _ (setPendingSend_same' _ _ (fun _ h _ => List.mem_of_mem_drop h))) (clearQueue_ev _ _)
       · exact clearQueue_ev _ _
 
 theorem sendPushPromise_ev (s : Streams) (parent pk pid : Nat) (fields : List Hpack.Field)
